@@ -121,5 +121,15 @@ def run(ctx):
     if ctx.tier == 'thorough':
         ok = ctx.leanchecker(c20.PHASES_MODULE) and ok
     c20.run_plugin_phases(ctx)
+    # ---- the clause "never hands a file larger than the size limit to any extractor" on the container path
+    # scalibr.ScanContainer -> trace.PopulateLayerDetails -> filesystem.Run (the layer trace re-extracts OLDER versions of a file):
+    # theorem C10_trace_sizes in Properties/C10Trace.lean, tied to the real ScanContainer with MaxFileSize / MaxInodes set through the
+    # `sizes` stream of the C05 harness (a size-recording extractor; the same path has a different size in every layer)
+    from . import c05
+    ok = ctx.audit(['Scalibr.Properties.C10', 'Scalibr.Properties.C10Layer', c20.PHASES_MODULE, c05.SIZE_MODULE],
+                   THEOREMS + LAYER_THEOREMS + c20.PHASES_THEOREMS + c05.SIZE_THEOREMS) and ok
+    if ctx.tier == 'thorough':
+        ok = ctx.leanchecker(c05.SIZE_MODULE) and ok
+    c05.run_size_limit(ctx)
     if not ok:
-        lib.proof_failed(ctx, 'Scalibr.Properties.C10 / Scalibr.Properties.C10Layer / Scalibr.Properties.C10Plugins')
+        lib.proof_failed(ctx, 'Scalibr.Properties.C10 / Scalibr.Properties.C10Layer / Scalibr.Properties.C10Plugins / Scalibr.Properties.C10Trace')
